@@ -678,12 +678,13 @@ func (x *exec) havocPrefix(st *State, prefix string, framed bool) {
 			st.heap[k] = e.ctx.Fresh("Hl<"+k+">", smt.ArrayOf(hk.Idx, hk.Elem))
 		}
 	}
-	st.havocked = append(st.havocked, havocMark{prefix, e.nextMark()})
+	st.havocked = append(st.havocked, havocMark{prefix, e.nextMark(), framed})
 }
 
 type havocMark struct {
 	prefix string
 	id     int
+	framed bool // the havoc was a framed one: arrays of the prefix first touched later still agree with the entry state outside the unit's frame
 }
 
 func (e *Engine) nextMark() int { e.markCounter++; return e.markCounter }
